@@ -41,7 +41,7 @@ class RedisMessageBroker(MessageBrokerT):
         self,
         key: RoutingKeyT,
         pipe: Pipeline,
-        delay_until: int | None = None,
+        delay_until: float | None = None,
         *,
         in_front: bool = False,
     ) -> None:
